@@ -22,6 +22,7 @@ import (
 	"github.com/invopop/gobl/schema"
 	"github.com/invopop/gobl/verifharness/internal/corpus"
 	"github.com/invopop/gobl/verifharness/internal/docgen"
+	"github.com/invopop/gobl/verifharness/internal/goblexec"
 	"github.com/invopop/gobl/verifharness/internal/jsontree"
 	"github.com/invopop/gobl/verifharness/internal/vh"
 	"pgregory.net/rapid"
@@ -143,6 +144,7 @@ func exerciseEnvelope(env *gobl.Envelope, o *vh.Obs) {
 		structured(o, "VerifySignature", env.VerifySignature(s, signKey.Public()))
 	}
 	// sign + verify
+	structured(o, "Sign(nil)", env.Sign(nil))
 	err = env.Sign(signKey)
 	structured(o, "Sign", err)
 	if err == nil {
@@ -207,8 +209,8 @@ type Op struct {
 
 // MutCase is an example plus edits.
 type MutCase struct {
-	Doc      string `json:"doc"`      // corpus path
-	Envelope bool   `json:"envelope"` // mutate the calculated envelope instead of the source document
+	Doc      string `json:"doc"`              // corpus path
+	Envelope bool   `json:"envelope"`         // mutate the calculated envelope instead of the source document
 	Signed   bool   `json:"signed,omitempty"` // ... after signing it (signatures are made once per process)
 	Ops      []Op   `json:"ops"`
 }
@@ -222,8 +224,8 @@ var hostileValues = []string{
 }
 
 var docs []corpus.Doc
-var trees map[string]any    // source documents
-var envTrees map[string]any // calculated envelopes
+var trees map[string]any       // source documents
+var envTrees map[string]any    // calculated envelopes
 var signedTrees map[string]any // calculated and signed envelopes
 
 func loadTrees() {
@@ -724,8 +726,9 @@ func enumSeeds(yield func(BytesCase) bool) {
 var fuzzParse, fuzzBulk func(t *testing.T, c BytesCase)
 
 func init() {
+	vh.OnExit(goblexec.Stop)
 	vh.Describe(
-		"(1) every single edit (quick tier: of a tenth of the nodes, rotating with the seed) (delete; set to null / [null] / \"\" / {}; insert a null element; duplicate the first element) of every node of every example document, of its calculated envelope and (header and signatures) of its signed envelope, exhaustively; (2) rapid: 1-3 random edits drawn from a hostile value list (nulls, retyped values, unknown currency / country / regime / addon / schema ids, empty and huge numbers, empty and null signatures, deep nesting, duplicated elements); (2b) schema-driven: for every published schema type a minimal document (and the first example of that type) in which each declared path of up to 3 member names (thorough: 5) ends in null / {} / [] / \"\" / 0 / [null] / a malformed template-and-format text, and every member a schema declares and an example (source and calculated envelope) does not carry, added in place with values of the right and of the wrong type (quick tier: a rotating twentieth); (3) fixed hostile texts, truncated examples and legacy variants of the examples (older member names, zones, rate and extension keys migrated on load); (3b) generated documents (internal/docgen) with legal but degenerate numbers: -100% / 0% / huge percentages also as tax rates, with and without included taxes, and generated payments of 1-4 lines whose documents carry tax summaries sharing categories and percentages but differing in surcharges and extensions; (4) thorough: native fuzzing of the parser pipeline (seeded with the examples, hostile texts and one all-members document per published type) and of the bulk request stream. Every input goes through Parse, Envelop, Calculate, Validate, Digest, Verify, Sign, Correct (7 option variants), Replicate, Invert, RemoveIncludedTaxes, Marshal and through bulk build / validate / correct / replicate / verify / sign requests. Oracle: no panic (signature = first gobl frame), no hang (20 s watchdog), every envelope-API error is a *gobl.Error with a documented key that serialises to JSON, every bulk error about a document carries a documented key (payload-level protocol errors aside), every bulk request is answered and the stream ends with one final marker. Non-trivial: the input parses (reaches logic beyond unmarshalling).",
+		"(1) every single edit (quick tier: of a tenth of the nodes, rotating with the seed) (delete; set to null / [null] / \"\" / {}; insert a null element; duplicate the first element) of every node of every example document, of its calculated envelope and (header and signatures) of its signed envelope, exhaustively; (2) rapid: 1-3 random edits drawn from a hostile value list (nulls, retyped values, unknown currency / country / regime / addon / schema ids, empty and huge numbers, empty and null signatures, deep nesting, duplicated elements); (2b) schema-driven: for every published schema type a minimal document (and the first example of that type) in which each declared path of up to 3 member names (thorough: 5) ends in null / {} / [] / \"\" / 0 / [null] / a malformed template-and-format text, and every member a schema declares and an example (source and calculated envelope) does not carry, added in place with values of the right and of the wrong type (quick tier: a rotating twentieth); (3) fixed hostile texts, truncated examples and legacy variants of the examples (older member names, zones, rate and extension keys migrated on load); (3b) generated documents (internal/docgen) with legal but degenerate numbers: -100% / 0% / huge percentages also as tax rates, with and without included taxes, and generated payments of 1-4 lines whose documents carry tax summaries sharing categories and percentages but differing in surcharges and extensions; (4) thorough: native fuzzing of the parser pipeline (seeded with the examples, hostile texts and one all-members document per published type) and of the bulk request stream. Every input goes through Parse, Envelop, Calculate, Validate, Digest, Verify, Sign, Correct (7 option variants), Replicate, Invert, RemoveIncludedTaxes, Marshal and through bulk build / validate / correct / replicate / verify / sign requests. `bulk_storm`: for every published object type a bulk stream of 400 (thorough: 4000) distinct all-members documents (every free string and every pattern member unique) as validate and as build requests, handled concurrently by the process - what the library builds lazily on first sight is then built from several requests at once. Every seed, legacy variant, all-members document and example is also posted to /build and /verify of a running `gobl serve` (never a 5xx, always a JSON object, documented keys, a keyed error for a document that was read). Oracle: no panic (signature = first gobl frame), no death of the process (a Go fatal error: the driver names the case from the shard's breadcrumb), no hang (20 s watchdog), every envelope-API error is a *gobl.Error with a documented key that serialises to JSON, every bulk error about a document carries a documented key (payload-level protocol errors aside), every bulk request is answered and the stream ends with one final marker. Non-trivial: the input parses (reaches logic beyond unmarshalling).",
 		"a watchdog expiry is reported as a hang only through the replay file (replay must reproduce it)",
 	)
 	vh.Enum("seeds", enumSeeds, judgeBytes)
@@ -742,6 +745,8 @@ func init() {
 		}
 	})
 	vh.Rapid("generated_payments", 3_000, 300_000, genPayCase, judgePayCase)
+	vh.Enum("http", enumHTTP, judgeHTTP)
+	vh.Enum("bulk_storm", enumStorm, judgeStorm)
 	fuzzParse = vh.FuzzTarget("FuzzParse", judgeBytes)
 	fuzzBulk = vh.FuzzTarget("FuzzBulk", judgeBulkBytes)
 }
